@@ -20,7 +20,7 @@ Qed.
       the lookup of the second name, then both wait for the other's lock.
       Neither has committed or aborted: outside the progress clause of C11,
       and unreachable through the shard layer (cache names are prefixed by the
-      shard file; bbolt admits one writer per file). *)
+      shard file; bbolt allows one writer per file). *)
 Definition cw_progs : list (list op) :=
   [[OWith 0 false OK; OWith 1 false OK; OCommit false];
    [OWith 1 false OK; OWith 0 false OK; OCommit false]].
